@@ -116,6 +116,13 @@ func init() {
 		}
 		c.defStringList("processMatchConds", ifConds(c, pm))
 		c.defStringList("processMatchCaseLabels", caseLabels(c, pm))
+		for _, it := range []struct{ name, out string }{{"Add", "addConds"}, {"Remove", "removeConds"}, {"Match", "nodeMatchConds"}} {
+			fd := findFunc(en, "MatchNode", it.name)
+			if fd == nil {
+				return fmt.Errorf("MatchNode.%s not found", it.name)
+			}
+			c.defStringList(it.out, ifConds(c, fd))
+		}
 		ie := findFunc(ep, "MatchExpression", "IsAtEnd")
 		if ie == nil || len(ie.Body.List) != 1 {
 			return fmt.Errorf("IsAtEnd: unexpected shape")
